@@ -50,6 +50,7 @@ import (
 	"io"
 	"iter"
 	"regexp/syntax"
+	"strconv"
 	"strings"
 	"unicode"
 	"unicode/utf8"
@@ -86,6 +87,7 @@ type Regex struct {
 	engine  *meta.Engine
 	pattern string
 	longest bool // if true, prefer leftmost-longest match (POSIX semantics)
+	posix   bool // compiled by CompilePOSIX (POSIX ERE syntax)
 }
 
 // Regexp is an alias for Regex to provide drop-in compatibility with stdlib regexp.
@@ -111,7 +113,7 @@ type Regexp = Regex
 //	    log.Fatal(err)
 //	}
 func Compile(pattern string) (*Regex, error) {
-	engine, err := meta.Compile(pattern)
+	engine, err := meta.CompileWithConfig(pattern, compileConfig())
 	if err != nil {
 		return nil, err
 	}
@@ -120,6 +122,23 @@ func Compile(pattern string) (*Regex, error) {
 		engine:  engine,
 		pattern: pattern,
 	}, nil
+}
+
+// compileConfig is the configuration used by Compile: the defaults, except that
+// nesting is accepted up to the depth regexp/syntax itself allows (its parser
+// limits the tree height to 1000), so that Compile accepts what regexp accepts.
+func compileConfig() meta.Config {
+	config := meta.DefaultConfig()
+	config.MaxRecursionDepth = 1000
+	return config
+}
+
+// quote renders a pattern for panic messages the way package regexp does.
+func quote(s string) string {
+	if strconv.CanBackquote(s) {
+		return "`" + s + "`"
+	}
+	return strconv.Quote(s)
 }
 
 // MustCompile compiles a regular expression pattern and panics if it fails.
@@ -132,7 +151,7 @@ func Compile(pattern string) (*Regex, error) {
 func MustCompile(pattern string) *Regex {
 	re, err := Compile(pattern)
 	if err != nil {
-		panic("regexp: Compile(`" + pattern + "`): " + err.Error())
+		panic(`regexp: Compile(` + quote(pattern) + `): ` + err.Error())
 	}
 	return re
 }
@@ -147,9 +166,19 @@ func MustCompile(pattern string) *Regex {
 // that early regular expression implementations used and that POSIX
 // specifies.
 func CompilePOSIX(pattern string) (*Regex, error) {
-	re, err := Compile(pattern)
+	// POSIX ERE syntax only: \d, \b, lazy quantifiers, flags etc. are errors.
+	parsed, err := syntax.Parse(pattern, syntax.POSIX)
 	if err != nil {
 		return nil, err
+	}
+	engine, err := meta.CompileRegexp(parsed, compileConfig())
+	if err != nil {
+		return nil, err
+	}
+	re := &Regex{
+		engine:  engine,
+		pattern: pattern,
+		posix:   true,
 	}
 	re.Longest()
 	return re, nil
@@ -162,7 +191,7 @@ func CompilePOSIX(pattern string) (*Regex, error) {
 func MustCompilePOSIX(pattern string) *Regex {
 	re, err := CompilePOSIX(pattern)
 	if err != nil {
-		panic("regexp: CompilePOSIX(`" + pattern + "`): " + err.Error())
+		panic(`regexp: CompilePOSIX(` + quote(pattern) + `): ` + err.Error())
 	}
 	return re
 }
@@ -1633,7 +1662,11 @@ func (r *Regex) Copy() *Regex {
 	// Create a new Regex with the same pattern
 	// Note: This re-compiles the pattern, which is slightly slower than
 	// sharing the internal engine, but ensures complete independence.
-	re, err := Compile(r.pattern)
+	compile := Compile
+	if r.posix {
+		compile = CompilePOSIX
+	}
+	re, err := compile(r.pattern)
 	if err != nil {
 		// This should never happen since the pattern was already compiled
 		return nil
